@@ -4,7 +4,7 @@ usage: trymut.py PROP[,PROP..] relpath 'old' 'new' [--count N]
 Not part of any registered check."""
 import os, shutil, subprocess, sys, tempfile
 
-def make_scratch(repo="/repo"):
+def make_scratch(repo=os.environ.get("BASE_REPO", "/repo")):
     d = tempfile.mkdtemp(prefix="nssa_mut_", dir="/tmp")
     src = os.path.join(repo, "src", "nuspacesim")
     for dp, dns, fns in os.walk(src):
